@@ -628,6 +628,8 @@ static int answered_early, all_addr_fail;
 static const struct plan * PLAN;
 static int hostile;
 static int cancel_after;		/* cancel after this many loop iterations (-1 never) */
+static int chain_left;			/* issue another, identical request from inside the callback this many times */
+static int expect_cb = 1;
 
 static void
 attach_server(struct vsock * vs)
@@ -803,6 +805,29 @@ on_deadlock(void)
 }
 
 /* ---------- the user callback: C08 and C09 oracles ---------- */
+static int http_callback(void *, struct http_response *);
+
+static void
+maybe_chain(void)
+{
+
+	if (chain_left <= 0)
+		return;
+	chain_left--;
+	/* a second, identical request started from inside the callback of the first (same process, same library state) */
+	TR(0x03, 0, 0, "http_request again, from inside the callback");
+	next_addr = 0;
+	LIB_ENTER();
+	hcookie = http_request(sas, &HREQ, maxrlen, http_callback, NULL);
+	LIB_LEAVE();
+	if (hcookie != NULL) {
+		req_live = 1;
+		expect_cb++;
+		R->cnt[N_REQ]++;
+	} else if (simalloc_failed == 0)
+		sim_viol("C08.once", "request-null", "http_request (from inside a callback) returned NULL without an allocation failure");
+}
+
 static int
 http_callback(void * cookie, struct http_response * res)
 {
@@ -815,14 +840,15 @@ http_callback(void * cookie, struct http_response * res)
 	NOTE("HTTP CALLBACK %s", res ? "response" : "NULL");
 	if (cancelled)
 		sim_viol("C08.once", "after-cancel", "callback invoked after http_request_cancel");
-	if (ncb > 1)
-		sim_viol("C08.once", "twice", "callback invoked %d times", ncb);
+	if (ncb > expect_cb)
+		sim_viol("C08.once", "twice", "callback invoked %d times for %d request(s)", ncb, expect_cb);
 	req_live = 0;
 	if (res == NULL) {
 		R->cnt[N_CB_NULL]++;
 		sim_trh(0xC8, 0, 0);
 		if (EX.known && !all_addr_fail && !AF_SINCE(0))
 			sim_viol("C09.status", "null", "well-formed response (status %d, %zu body bytes, limit %zu) but the callback got NULL", EX.status, EX.bodylen, maxrlen);
+		maybe_chain();
 		CB_LEAVE();
 		return (0);
 	}
@@ -876,6 +902,7 @@ http_callback(void * cookie, struct http_response * res)
 	}
 	/* the callback owns the body */
 	free(res->body);
+	maybe_chain();
 	CB_LEAVE();
 	return (0);
 }
@@ -927,6 +954,7 @@ engine_gen(struct plan * P, uint64_t seed, struct prng * g)
 	plan_add(P, "knob", "req_seed", 1, (int64_t)prng_n(g, 1000000));
 	plan_add(P, "knob", "fd_base", 1, (int64_t)(prng_chance(g, 15) ? 3 + prng_n(g, 100) : prng_chance(g, 10) ? 0 : 3));
 	plan_add(P, "knob", "syslog", 1, (int64_t)prng_chance(g, 20));
+	plan_add(P, "knob", "chain", 1, (int64_t)(prng_chance(g, 12) ? 1 + prng_n(g, 2) : 0));
 	plan_add(P, "knob", "fill", 1, (int64_t)(prng_chance(g, 30) ? ' ' : prng_chance(g, 30) ? '7' : prng_chance(g, 50) ? 256 : 0));
 	/* addresses */
 	na = c14 ? 1 + (int)prng_n(g, 2) : (prng_chance(g, 80) ? 1 : 1 + (int)prng_n(g, 3));
@@ -1101,6 +1129,9 @@ engine_run(const struct plan * P)
 	simalloc_fill = (int)plan_knob(P, "fill", -1);
 	simalloc_fill_seed = 4242;
 	cancel_after = (int)plan_knob(P, "cancel_after", -1);
+	chain_left = (int)plan_knob(P, "chain", 0);
+	if (chain_left < 0 || chain_left > 3)
+		chain_left = 0;
 	if (plan_knob(P, "syslog", 0) == 1) {
 		/* an application may route the library's warnings to syslog (which is stubbed out here) */
 		LIB_ENTER();
@@ -1274,7 +1305,7 @@ engine_run(const struct plan * P)
 
 		(void)dummy;
 	}
-	if (ncb == 0 && !cancelled && !loop_failed && simalloc_failed == 0)
+	if (ncb < expect_cb && !cancelled && !loop_failed && simalloc_failed == 0)
 		sim_viol("C08.once", "never", "the request ended without a callback and without being cancelled");
 	/* C09: the bytes the server received */
 	if (server != NULL && EX.known && simalloc_failed == 0) {
